@@ -345,11 +345,15 @@ theorem c07_refused_transition_keeps_old (bp : BP) (old : Option G) (new : G) (s
 
 /-! ### which terms a member pins -/
 
-/-- **`…_partial`**: what `ValidateProposal` does pin for a node that is in the network (neither Fresh nor Left) when
-it accepts a reshare proposal: beacon id, genesis time and genesis seed. -/
-theorem c07_terms_pinned_partial (cur : DBState) (t : Terms) (now : Int) (h : validateProposal cur t now = .ok ())
+/-- what `ValidateProposal` pins for a node that is in the network (neither Fresh nor Left) when it accepts a reshare
+proposal: beacon id, genesis time, genesis seed and — since drand commit "fix: members refuse a reshare proposal that
+changes the scheme or the beacon period" — scheme and period, i.e. every parameter of the chain's identity. (Before
+that repair only the first three were pinned: a proposal with period 31 s instead of 30 s, or with another scheme over
+the same key group, was accepted by a member; witnesses corpus/C07/tampered_period.json, tampered_scheme.json.) -/
+theorem c07_terms_pinned (cur : DBState) (t : Terms) (now : Int) (h : validateProposal cur t now = .ok ())
     (hep : t.epoch ≠ 1) (hmem : cur.state ≠ .fresh ∧ cur.state ≠ .left) :
-    t.beaconID = cur.beaconID ∧ t.genesisTime = cur.genesisTime ∧ t.genesisSeed = cur.genesisSeed := by
+    t.beaconID = cur.beaconID ∧ t.genesisTime = cur.genesisTime ∧ t.genesisSeed = cur.genesisSeed ∧
+    t.schemeID = cur.schemeID ∧ t.periodSec = cur.periodSec := by
   unfold validateProposal at h
   have hb : t.beaconID = cur.beaconID := by
     by_cases hb : cur.beaconID = t.beaconID
@@ -369,7 +373,11 @@ theorem c07_terms_pinned_partial (cur : DBState) (t : Terms) (now : Int) (h : va
       unfold validateReshareForRemainers at h
       by_cases hg : t.genesisTime = cur.genesisTime
       · by_cases hsd : t.genesisSeed = cur.genesisSeed
-        · exact ⟨hg, hsd⟩
+        · by_cases hsc : t.schemeID = cur.schemeID
+          · by_cases hpe : t.periodSec = cur.periodSec
+            · exact ⟨hg, hsd, hsc, hpe⟩
+            · simp [hg, hsd, hsc, hpe, bind, Except.bind, throw, throwThe, MonadExceptOf.throw] at h
+          · simp [hg, hsd, hsc, bind, Except.bind, throw, throwThe, MonadExceptOf.throw] at h
         · simp [hg, hsd, bind, Except.bind, throw, throwThe, MonadExceptOf.throw] at h
       · simp [hg, bind, Except.bind, throw, throwThe, MonadExceptOf.throw] at h
 
@@ -384,20 +392,14 @@ private def cxTerms : Terms :=
     genesisSeed := [9], catchupSec := 1, periodSec := 30, leader := cxP 1 "a", joining := [],
     remaining := [cxP 1 "a", cxP 2 "b", cxP 3 "c"], leaving := [] }
 
-/-- **`…_counterexample`** (period): a member of the running group (state Complete, period 30 s) accepts, from the
-leader, a reshare proposal with period 31 s; the state it stores carries the new period. Replayed on the real
-`Process.Packet` (`dkgrun … tamper=period`, corpus/C07/tampered_period.json). -/
-theorem c07_period_counterexample :
-    (validateProposal cxCur { cxTerms with periodSec := 31 } 2000).toBool = true ∧
-    ((cxCur.proposed (cxP 2 "b") { cxTerms with periodSec := 31 } "a" 2000).toOption.map (·.periodSec)) = some 31 ∧
-    cxCur.periodSec = 30 := by decide
+/-- the former counterexamples are now refused: a member of the running group (state Complete, period 30 s, chained
+scheme) rejects a leader's reshare proposal with period 31 s, and one naming another scheme over the same key group -/
+theorem c07_period_change_refused :
+    (validateProposal cxCur cxTerms 2000).toBool = true ∧
+    (validateProposal cxCur { cxTerms with periodSec := 31 } 2000).toBool = false ∧ cxCur.periodSec = 30 := by decide
 
-/-- **`…_counterexample`** (scheme): likewise for another scheme over the same key group, in a reshare without joiners
-(a joiner's self-signature covers the scheme name and would fail) -/
-theorem c07_scheme_counterexample :
-    (validateProposal cxCur { cxTerms with schemeID := "pedersen-bls-unchained" } 2000).toBool = true ∧
-    ((cxCur.proposed (cxP 2 "b") { cxTerms with schemeID := "pedersen-bls-unchained" } "a" 2000).toOption.map (·.schemeID)) =
-      some "pedersen-bls-unchained" := by decide
+theorem c07_scheme_change_refused :
+    (validateProposal cxCur { cxTerms with schemeID := "pedersen-bls-unchained" } 2000).toBool = false := by decide
 
 private def cxG (p : Nat) (sch : String) (tt : Int) : G :=
   { id := [], threshold := 2, periodSec := p, scheme := sch, catchupSec := 1, genesisTime := 1000, genesisSeed := [9],
